@@ -34,6 +34,15 @@ theorem fmt5e_monotone : Fmt5eMonotoneStatement := by
   obtain ⟨_, rfl, rfl⟩ := h2
   exact nf_mono (by omega) (by omega)
 
+theorem fmt5e_neg : Fmt5eNegStatement := by
+  intro k hk
+  have h1 : (-k).natAbs = k.natAbs := Int.natAbs_neg k
+  have h2 : (-k) < 0 := by omega
+  have h3 : ¬ k < 0 := by omega
+  have h4 : k.natAbs * 15625 ≠ 0 := by omega
+  unfold fmt5e
+  simp only [h1, h2, h3, h4, if_true, if_false, List.nil_append, List.cons_append, List.append_assoc]
+
 example : fmt5e (-96) = lit "-1.50000e+00" := by decide +kernel
 example : fmt5e 1 = lit "1.56250e-02" := by decide +kernel
 example : fmt5e 64 = lit "1.00000e+00" := by decide +kernel
